@@ -64,6 +64,9 @@ def d1(cx: Cx, ob: Ob) -> None:
         last = [g for g in ctx.guards if g.kind == "guard" and g.a == call_t]
         if not last or last[-1].b is not True:
             ob.violate(init.qualname, where(init, line), f"{cls} is not raised exactly when its detector reports duplicates", witness=describe_path(ctx), detail=f"raise-guard:{cls}")
+    sp = init.param("strict")
+    if sp is None or not (isinstance(sp.default, ast.Constant) and sp.default.value is True):
+        ob.violate(init.qualname, init.where, "Converter.__init__ does not default to strict=True: plain Converter(records) and every loader accept duplicate prefixes silently", detail="strict-default")
     uri_call = dets["DuplicateURIPrefixes"][1]
     pre_call = dets["DuplicatePrefixes"][1]
     pctx = dets["DuplicatePrefixes"][2]
